@@ -310,6 +310,11 @@ var detMu sync.Mutex
 // between repetition 0 and the later in-process repetitions, while fresh processes agree with 0.
 var detPerturb bool
 
+// detReuseEval makes detOnce1 run the case with the evaluator object of the previous repetition (the
+// evaluator is re-initialised by every run: a caller may keep one RunOpts and run it again)
+var detReuseEval bool
+var detLastEval *eval.Eval
+
 func detOnce1(in term.T) (rep detRep) {
 	detMu.Lock()
 	defer detMu.Unlock()
@@ -366,8 +371,14 @@ func detOnce1(in term.T) (rep detRep) {
 	}
 	// the parsed program rendered back to text is part of the compared output too
 	rep.Printed = "\nAST " + al.Program.String()
+	ev := eval.New(context.Background(), al.Program)
+	if detReuseEval && detLastEval != nil && !detPerturb {
+		ev = detLastEval
+	} else if !detPerturb {
+		detLastEval = ev
+	}
 	res, err := simulation.Run(&simulation.RunOpts{
-		Config: cfg, Eval: eval.New(context.Background(), al.Program), Seed: seed, Loggers: []logging.Logger{lg},
+		Config: cfg, Eval: ev, Seed: seed, Loggers: []logging.Logger{lg},
 	})
 	if err != nil {
 		rep.Status = "error: " + err.Error()
@@ -505,8 +516,12 @@ func runDet(in term.T) term.T {
 			_ = detOnce1(in)
 			detPerturb = false
 		}
+		// the last in-process repetition runs the SAME evaluator object as repetition 0 again
+		detReuseEval = i == detInProcess-1
 		reps[i] = detOnce1(in)
+		detReuseEval = false
 	}
+	detLastEval = nil
 	wg.Wait()
 	flags, hashes := []term.T{}, []term.T{term.S(reps[0].hash())}
 	diff := ""
